@@ -14,6 +14,7 @@ CONSTANTS
   CancelCalls = {1, 2, 3, 4, 5, 6}
   EnvTClose = TRUE
   Coarse = FALSE
+  Eager = FALSE
   WithHist = FALSE
 CONSTRAINT HWM
 POSTCONDITION Accepted
